@@ -117,7 +117,7 @@ def pCalls : P (List (MeasureCall F)) := fun ts => do
 
 /-- the monitor: `Spec.leafBox` and `Spec.leafMeasureCalls` at `Rat` against the implementation's answer -/
 def monitorLeaf (style : Style F) (ctx : Option (MeasureSpec F)) (av : Size (AvailableSpace F))
-    (ans : List String) : String :=
+    (ans : List String) (again : Bool := false) : String :=
   match ans with
   | ["panic"] => "impl-panic"
   | _ =>
@@ -138,7 +138,8 @@ def monitorLeaf (style : Style F) (ctx : Option (MeasureSpec F)) (av : Size (Ava
           let want := Spec.leafBox rs measure rav
           let wantCalls := Spec.leafMeasureCalls rs rav
           if want != rl then "spec-mismatch layout"
-          else if wantCalls != rcs then "spec-mismatch calls"
+          -- a tree that was laid out before may answer from its cache: no measure call at all is then what the property allows
+          else if wantCalls != rcs && !(again && rcs.isEmpty) then "spec-mismatch calls"
           else "ok"
       | _, _, _, _, _ => "ok nonfinite"
     | _ => "bad-op"
@@ -173,6 +174,15 @@ def step (_ : Unit) (ws : List String) : Unit × String :=
       | .ok (l, calls) => showLayout l ++ " " ++ showCalls calls
       | .error _ => "panic"
     | _ => "bad-op"
+  -- `leafagain <n>`: the same single-node tree reached through a history (earlier layout, set_style / set_node_context, layout);
+  -- `<n>` = number of measure calls the implementation made in the last pass (0 = answered from the cache, which the leaf model does not have)
+  | "leafagain" :: n :: rest =>
+    match (do let (s, ts) ← pStyle rest; let (c, ts) ← pCtx ts; let (av, ts) ← pSize pAv ts; pure (s, c, av, ts)) with
+    | some (s, c, av, []) =>
+      match layoutSingleLeaf s c av with
+      | .ok (l, calls) => showLayout l ++ " " ++ (if n == "0" then showCalls [] else showCalls calls)
+      | .error _ => "panic"
+    | _ => "bad-op"
   | "leafraw" :: rest =>
     match (do let (s, ts) ← pStyle rest; let (c, ts) ← pCtx ts; let (i, ts) ← pInput ts; pure (s, c, i, ts)) with
     | some (s, c, i, []) =>
@@ -189,6 +199,10 @@ def step (_ : Unit) (ws : List String) : Unit × String :=
   | "mon" :: "leaf" :: rest =>
     match (do let (s, ts) ← pStyle rest; let (c, ts) ← pCtx ts; let (av, ts) ← pSize pAv ts; pure (s, c, av, ts)) with
     | some (s, c, av, "=>" :: ans) => monitorLeaf s c av ans
+    | _ => "bad-op"
+  | "mon" :: "leafagain" :: _ :: rest =>
+    match (do let (s, ts) ← pStyle rest; let (c, ts) ← pCtx ts; let (av, ts) ← pSize pAv ts; pure (s, c, av, ts)) with
+    | some (s, c, av, "=>" :: ans) => monitorLeaf s c av ans (again := true)
     | _ => "bad-op"
   | "mon" :: "leafraw" :: rest =>
     match (do let (s, ts) ← pStyle rest; let (_, ts) ← pCtx ts; let (i, ts) ← pInput ts; pure (s, i, ts)) with
